@@ -4,12 +4,14 @@
 package props
 
 import (
+	"bufio"
 	"bytes"
 	"encoding/base64"
 	"encoding/gob"
 	"encoding/hex"
 	"encoding/json"
 	"fmt"
+	"io"
 	"strings"
 	"syscall"
 	"time"
@@ -51,14 +53,32 @@ func hx(b []byte) string {
 	return fmt.Sprintf("%s...%s (%d bytes)", hex.EncodeToString(b[:32]), hex.EncodeToString(b[len(b)-8:]), len(b))
 }
 
-// read decodes one frame with ReadPacket from a contiguous in-memory reader,
-// under the panic guard and watchdog.
+// readerFor offers a frame through one of several concrete reader types,
+// chosen by a hash of the frame (so a case always replays the same way):
+// *bytes.Reader, *bytes.Buffer, *bufio.Reader, or a plain reader that hides
+// every optional interface. Code that type-asserts its reader takes other
+// paths for them; every one of them delivers the same bytes.
+func readerFor(frame []byte) (io.Reader, string) {
+	switch vf.FP(frame) % 5 {
+	case 0:
+		return bytes.NewBuffer(append([]byte(nil), frame...)), "bytes.Buffer"
+	case 1:
+		return bufio.NewReaderSize(bytes.NewReader(frame), 16), "bufio"
+	case 2:
+		return struct{ io.Reader }{bytes.NewReader(frame)}, "plain"
+	}
+	return bytes.NewReader(frame), "bytes.Reader"
+}
+
+// read decodes one frame with ReadPacket from an in-memory reader (see
+// readerFor), under the panic guard and watchdog.
 func read(frame []byte) (p mq.ControlPacket, err error, pan *guard.Panic) {
 	pan = guard.Watched(len(frame), func() []byte {
-		b, _ := json.Marshal(vf.Failure{Property: "C05", Kind: "decode", Case: mustJSON(caseFrame{Frame: frame, Entry: "ReadPacket"}), Message: "in flight"})
+		b, _ := json.Marshal(vf.Failure{Property: curProp, Kind: "hang", Case: mustJSON(caseFrame{Frame: frame, Entry: "ReadPacket"}), Signature: "hang", Message: "in flight"})
 		return b
 	}, func() {
-		p, err = mq.ReadPacket(bytes.NewReader(frame))
+		rd, _ := readerFor(frame)
+		p, err = mq.ReadPacket(rd)
 	})
 	return
 }
